@@ -336,6 +336,13 @@ Definition exec (m : module) (i : instr) : M unit :=
     check_long n;; check_long es;; check_bounds_long bounds;;
     let hdr := header_cells n es bounds in
     let size := array_size es bounds in
+    let total := Z.of_nat (length hdr) + size in
+    if total <? Z.of_nat (length hdr) then
+      (* MemorySegment(len(header)+size) is shorter than the header: set_cell
+         raises IndexError inside Array.__init__; the half-built segment exists *)
+      do _ <- alloc_seg (mkSeg (firstn (Z.to_nat total) hdr) SArray);
+      crashM CrIndex
+    else
     do g <- alloc_seg (mkSeg (hdr ++ repeat None (Z.to_nat size)) SArray);
     push_cell (CRef g 0)
   | IAnd => bitwise Z.land
@@ -439,7 +446,7 @@ Definition exec (m : module) (i : instr) : M unit :=
     if (t =? 0) && handler_active s then
       match last_trap s with
       | Some c => (fun s' => T c (last_kw_ok s') s')
-      | None => crashM CrType
+      | None => (fun s' => X CrAssert (set_trapped_addr s' (prev_pc s')))   (* Trapped(None) -> _trap: assert False *)
       end
     else if handler_active s then trap T_ERRHAND_IN_HANDLER
     else modify (fun s => set_ttarget s (if t =? 0 then TNone else if t =? 1 then TNext else TAddr t))
@@ -629,14 +636,15 @@ Definition exec (m : module) (i : instr) : M unit :=
      end);;
     do rv <- pop;
     do rv' <- (match rv with
-               | CRef g' i' =>
-                 do o <- seg_get g' i';
-                 match o with Some c => ret c | None => crashM CrAttr end
-               | _ => ret rv
+               | CRef g' i' => seg_get g' i'
+               | _ => ret (Some rv)
                end);
     do t <- pop_long;
     modify (fun s => set_pc s t);;
-    repush rv'
+    match rv' with
+    | Some c => repush c
+    | None => crashM CrAttr       (* None.type *)
+    end
   | ISdbl => crashM CrPowUnknown       (* VAL: modelled separately (Literal.v); excluded here *)
   | ISign =>
     do v <- pop;
@@ -738,7 +746,7 @@ Definition do_trap (m : module) (code : Z) (kw_ok : bool) (s0 : st) : tick_out :
     | TNext =>
       match exec_errres m true s with
       | R _ s' => Next s'
-      | T _ _ s' => Crash CrTrapped s'        (* Trapped escapes tick() *)
+      | T _ _ s' => Crash CrTrapped (set_trapped_addr s' (prev_pc s'))   (* Trapped escapes tick(); cpu.trap() recorded the address *)
       | ZD s' => Crash CrAssert s'
       | X k s' => Crash k s'
       | NI s' => NeedInput s'
